@@ -49,11 +49,22 @@ pub fn run(_args: &[String]) -> anyhow::Result<()> {
         ext_live.push((k.to_string_lossy().into_owned(), class[0].clone()));
     }
     ext_live.sort();
+    // the live severity parser on every case variant of a fixed list of candidate names (and a few non-names)
+    let mut severity_live: Vec<(String, Option<u8>)> = vec![];
+    for base in ["Error", "Warning", "Info", "Hint", "Information", "Warn", "Err", "Fatal", "Note", "Off", "Debug", "Trace", "Critical", "None", "1", "2", "", " error", "error ", "Errор"] {
+        let swapped: String = base.chars().map(|c| if c.is_ascii_uppercase() { c.to_ascii_lowercase() } else { c.to_ascii_uppercase() }).collect();
+        let alternating: String = base.chars().enumerate().map(|(k, c)| if k % 2 == 0 { c.to_ascii_lowercase() } else { c.to_ascii_uppercase() }).collect();
+        for s in [base.to_string(), base.to_ascii_lowercase(), base.to_ascii_uppercase(), swapped, alternating] {
+            if severity_live.iter().any(|(t, _)| *t == s) { continue; }
+            let v = <blockwatch::blocks::BlockSeverity as std::str::FromStr>::from_str(&s).ok().map(|v| v as u8);
+            severity_live.push((s, v));
+        }
+    }
     let detectors_live: Vec<&str> = blockwatch::validators::DETECTOR_FACTORIES.iter().map(|(n, _)| *n).collect();
     println!(
         "{}",
         json!({"alnum": alnum, "white": white, "lower_to_ascii": lower_ascii, "ascii_lower_ok": ascii_ok,
-               "ext_live": ext_live, "detectors_live": detectors_live})
+               "ext_live": ext_live, "detectors_live": detectors_live, "severity_live": severity_live})
     );
     Ok(())
 }
